@@ -719,7 +719,33 @@ def rule_lzma_header(facts):
             r.bad("lzmahdr|marker-guard", "the end marker is not written exactly when the header says the size is unknown", pat.where(f))
         # bit counts
         bits = []
-        for e in ebs:
+        # a private helper that codes `count` copies of one bit with a fresh probability each (`encode_fresh_bits(4, false)`)
+        helper_groups = {}
+        for x in f.calls():
+            cal = x.term.callee
+            if cal is None or not cal.target().local or (flow.callee(x.term) or "").endswith(("encode_bit", "RangeEncoder::finish")):
+                continue
+            hb = facts.by_def.get(cal.target().defk)
+            if hb is None:
+                continue
+            hebs = [y for y in hb.calls() if (flow.callee(y.term) or "").endswith("encode_bit")]
+            hc = cfg(hb)
+            if len(hebs) != 1 or not hc.loop_blocks_of(hebs[0].idx) or len(x.term.args) != 3:
+                continue
+            th_ = Terms(hb)
+            hbit = th_.of_operand(hebs[0].term.args[2])
+            hprob = th_.of_operand(hebs[0].term.args[1])
+            rngs = [q for y in hb.calls() for q in _subterms(th_.of_operand(y.term.args[0])) if y.term.args and q[0] == "agg" and "Range" in str(q[1])]
+            cnt_t, bit_t = tf.of_operand(x.term.args[1]), tf.of_operand(x.term.args[2])
+            if hbit[0] == "arg" and hbit[1] == 3 and rngs and rngs[0][2][0] == ("const", 0) and rngs[0][2][1][0] == "arg" and rngs[0][2][1][1] == 2 \
+                    and not pat.has_field(hprob, "is_match") and pat.has_const(hprob, 0x400) and cnt_t[0] == "const" and bit_t[0] == "const":
+                helper_groups[x.idx] = (cnt_t[1], bit_t[1], False)
+        events = sorted([(e.idx, None) for e in ebs] + [(k, v) for k, v in helper_groups.items()])
+        for eidx, grp in events:
+            if grp is not None:
+                bits.append(grp)
+                continue
+            e = f.blocks[eidx]
             bit = tf.of_operand(e.term.args[2])
             prob = tf.of_operand(e.term.args[1])
             loops = [(h, bl) for h, bl, _ in cf_.loops() if e.idx in bl]
@@ -941,8 +967,34 @@ def rule_rangecoder(facts):
     gsn, tn = pat.guards(n)
     th = [t for (_, t, _, _) in gsn if pat.has_field(t, "range")]
     shl = [tn.of_rvalue(s.rv, blk.idx) for blk in n.blocks for s in blk.stmts if s.k == "assign" and s.rv.k == "binop" and s.rv.binop == "Shl"]
-    s0 = pat.cmp_sides(th[0]) if th else None
-    if s0 and s0[0] == "Lt" and s0[2] == ("const", 1 << 24) and shl and shl[0][2] == ("const", 8):
+    # the loop test by its truth table (continue exactly while range < 2^24, whichever way it is spelt), the shift by evaluation
+    okn = False
+    cn = cfg(n)
+    for (bbn, tn_, z_, nz_) in gsn:
+        if not pat.has_field(tn_, "range") or not cn.loop_blocks_of(bbn):
+            continue
+        try:
+            pts_ = (0, 1, (1 << 24) - 1, 1 << 24, (1 << 24) + 1, 0xFFFF_FFFF)
+            tv_ = [bool(pat.eval_cmp(tn_, lambda q, R=R: R if (q[0] == "field" and q[1] == "range") else (_ for _ in ()).throw(pat.NotEvaluable(q))))
+                   for R in pts_]
+        except (pat.NotEvaluable, pat.Overflow):
+            continue
+        lb_ = cn.loop_blocks_of(bbn)
+        stay_true, stay_false = nz_ in lb_ and any(b_.term.k == "call" for b_ in [n.blocks[x] for x in cn.reachable_from(nz_) & lb_]), \
+            z_ in lb_ and any(b_.term.k == "call" for b_ in [n.blocks[x] for x in cn.reachable_from(z_) & lb_])
+        if tv_ == [R < (1 << 24) for R in pts_] and not cn.some_path(z_, [x for x in lb_ if n.blocks[x].term.k == "call"], avoid=[bbn]):
+            okn = True
+        if tv_ == [R >= (1 << 24) for R in pts_] and not cn.some_path(nz_, [x for x in lb_ if n.blocks[x].term.k == "call"], avoid=[bbn]):
+            okn = True
+    shl_ok = False
+    for t_ in shl:
+        try:
+            if all(pat.eval_term(t_, lambda q, R=R: R if (q[0] == "field" and q[1] == "range") else (_ for _ in ()).throw(pat.NotEvaluable(q))) == (R << 8) & 0xFFFF_FFFF
+                   for R in (1, 0xFFFF, (1 << 24) - 1)):
+                shl_ok = True
+        except (pat.NotEvaluable, pat.Overflow):
+            pass
+    if okn and shl_ok:
         r.ok("constant", {"normalize": "while range < 2^24: range <<= 8, shift low out"})
     else:
         r.bad("rangeenc|normalize", "normalisation is not `while range < 2^24 { range <<= 8 }`", pat.where(n))
